@@ -414,6 +414,18 @@ def _find_leakers(binary, cases, env):
 
 
 def run_sharded(binary, cases, shards=None, **kw):
+    # cases tagged "cold" get a process of their own: what the library answers to the very first call of a process
+    # (tables built on first use, one-time initialisation) must be what it answers later
+    cold = [c for c in cases if "cold" in c.tags]
+    if cold:
+        out = {}
+        with ThreadPoolExecutor(max_workers=NCPU) as ex:
+            for r in ex.map(lambda c: run_program(binary, [c], **kw), cold):
+                out.update(r)
+        rest = [c for c in cases if "cold" not in c.tags]
+        if rest:
+            out.update(run_sharded(binary, rest, shards, **kw))
+        return out
     shards = shards or min(NCPU, max(1, len(cases) // 50))
     if shards <= 1:
         return run_program(binary, cases, **kw)
@@ -491,15 +503,16 @@ def compare_case(impl, model):
 # shrinking
 # --------------------------------------------------------------------------
 
-def shrink(case, harness_bin, driver_bin, budget=80, keep_prefix=0):
-    """Delta-debug the op list of a failing case (ops after `keep_prefix`)."""
+def shrink(case, harness_bin, driver_bin, budget=80, keep_prefix=0, kind="spec"):
+    """Delta-debug the op list of a failing case (ops after `keep_prefix`); a smaller case counts only when its
+    difference is of the same kind (a property-level difference is never shrunk into a model-level one)."""
     def fails(ops):
         c = Case(case.cid, ops)
         a = run_program(harness_bin, [c]).get(c.cid, [])
         b = run_program(driver_bin, [c]).get(c.cid, [])
         d = compare_case(a, b)
         # an operation that lost the set-up it depends on is answered `bad-op`: not a smaller failing case
-        return d is not None and "bad-op" not in d["impl"] and "bad-op" not in d["model"]
+        return d is not None and d["kind"] == kind and "bad-op" not in d["impl"] and "bad-op" not in d["model"]
     ops = list(case.ops)
     # cut everything after the first differing op
     steps = 0
